@@ -33,6 +33,8 @@ def make_registry():
         reg.trusted_external = list(external.TRUSTED)
     except ImportError:
         reg.trusted_external = []
+    for inst in api.INSTALLERS:
+        inst(reg)
     return reg
 
 
@@ -126,6 +128,12 @@ class RecValue:
 
     def __init__(self, cls, fields):
         self.cls, self.fields = cls, fields
+
+    def __getattr__(self, name):
+        f = self.__dict__.get('fields', {})
+        if name in f:
+            return f[name]
+        raise AttributeError(name)
 
     def __repr__(self):
         return '%s(%s)' % (self.cls.__name__, ', '.join('%s=%r' % kv for kv in sorted(self.fields.items())))
@@ -231,6 +239,9 @@ def verify_contract(c, reg, timeout_ms=QUICK_TIMEOUT_MS, max_paths=4000, want_sm
         spec_ip = Interp(ctx, reg, modular=False, top=None)
         spec_ip.top_name = c.key
         spec_ip.opaque_used = ip.opaque_used
+        if c.init is not None:
+            call_by_name(spec_ip, c.init, env)
+            ctx.param_env = snapshot(env)
         if c.requires is not None:
             r = call_by_name(spec_ip, c.requires, env)
             ctx.assume(truth_term(ctx, r))
@@ -289,8 +300,12 @@ def verify_contract(c, reg, timeout_ms=QUICK_TIMEOUT_MS, max_paths=4000, want_sm
             t = ops.values_eq(ctx, result, spec_val)
             post_fns.append(('post', t, {'result': _short(result), 'specified': _short(spec_val)}))
         if c.ensures is not None:
-            r = call_by_name(spec_ip, c.ensures, penv)
-            post_fns.append(('post', truth_term(ctx, r), {'result': _short(result)}))
+            try:
+                r = call_by_name(spec_ip, c.ensures, penv)
+                post_fns.append(('post', truth_term(ctx, r), {'result': _short(result)}))
+            except PyRaise as e:
+                # the postcondition is not even defined here (e.g. the specification says "invalid" but the code returned)
+                post_fns.append(('post', False, {'result': _short(result), 'specified': 'postcondition raised %r' % (e.exc,)}))
         pin_terms = {}
         for pid, pfn in c.pins.items():
             try:
@@ -550,12 +565,39 @@ def from_jsonable(v):
 # ---------------------------------------------------------------------------------------------------
 # native replay of a counterexample on the real function
 
-def replay_native(c, conc):
+def replay_native(c, conc, warmup=None):
     """Run the real function on concrete inputs and evaluate the contract natively.
-    Returns dict(confirmed=bool, observed=..., expected=...)."""
+    Returns dict(confirmed=bool, observed=..., expected=...).
+    `warmup`: another argument assignment; the function is first called once on the SAME receiver object with those
+    arguments (result ignored), so that state left behind by an earlier call (caches) is part of what is checked."""
     f, owner, kind = c.function()
     rep = {}
     env = dict(conc)
+    prepared = False
+    if warmup is not None and 'self' in env and c.build is None:
+        try:
+            if c.prepare is not None:
+                env.update(native_by_name(c.prepare, env))
+                prepared = True
+            w = dict(warmup)
+            w['self'] = env['self']
+            sigw = inspect.signature(f)
+            kw = dict(native_by_name(c.call, w)) if c.call is not None else {k: v for k, v in w.items() if k in sigw.parameters}
+            kw.update(c.kwargs)
+            try:
+                f(**kw)
+            except Exception:
+                pass
+            rep['warmup'] = _short({k: _jsonable(v) for k, v in warmup.items() if k != 'self'})
+        except Exception as e:
+            rep['warmup_error'] = repr(e)
+    if c.prepare is not None and not prepared:
+        try:
+            env.update(native_by_name(c.prepare, env))
+        except Exception as e:
+            rep['confirmed'] = False
+            rep['note'] = 'concretised input cannot be turned into real objects: %r' % (e,)
+            return rep
     if c.requires is not None:
         try:
             ok = bool(native_by_name(c.requires, env))
@@ -566,8 +608,6 @@ def replay_native(c, conc):
             rep['confirmed'] = False
             rep['note'] = 'concretised input does not satisfy requires (abstraction artefact)'
             return rep
-    if c.prepare is not None:
-        env.update(native_by_name(c.prepare, env))
     olds = {'old_' + k: copy.deepcopy(v) for k, v in env.items()}
     if c.build is not None:
         fn, args, kwargs = native_by_name(c.build, env)
